@@ -1,12 +1,26 @@
-"""C07 - Pool.run raises IndexError('pop from empty list') on a late result (timing dependent).
+"""C07 - Pool.run raises IndexError('pop from empty list') on a late result - test_retries_x2 scenario.
+
+HONEST NOTE: this script did NOT reproduce the IndexError on this machine (0 of 40 runs on the original
+tree); it prints NOT REPRODUCED on both trees.  The deterministic real-OS reproduction of the same defect is
+fixed_c07_pool_late_result_slow_source.py.
 
 Same scenario as tests/pool_test.py::PoolTest(PROCESS)::test_retries_x2: three persistent PROCESS workers,
 target 1/x, inputs range(6), worker_extra_pending_inputs=1.  Input 0 kills its worker (ZeroDivisionError),
 the input is retried on the other workers and kills them too - the expected outcome is a PoolError.
-With extra pending inputs a worker can die "while enqueueing" (enqueue raises, death is handled, its pending
-list is cleared) while a result it produced earlier is still unread in its pipe; when the original Pool.run
-reads that late result it pops from the now empty pending list -> IndexError.  The repaired Pool.run accounts
-the late result to the orphaned input.  The scenario is run up to 10 times (fresh pool each time).
+The defect: a worker's death is handled "while enqueueing" (enqueue raises, its pending list is cleared)
+while a result it produced earlier is still unread in its pipe; when the original Pool.run reads that late
+result it pops from the now empty pending list -> IndexError.  The repaired Pool.run accounts the late result
+to the orphaned input.  The scenario is run up to 10 times (fresh pool each time); REPRODUCED only if a run
+raises IndexError.
+
+Why it does not show here (from reading Pool.run): with one extra pending input a worker holds at most two
+inputs, and after the initial enqueueing Pool.run only enqueues to a worker right after it has read (and
+popped) one of that worker's results - so at the moment an enqueue fails, the only input still pending on the
+dead worker is the one that killed it, and no result can be unread.  Without an external kill the window
+needs worker_extra_pending_inputs >= 2 (a death between two rounds of the initial enqueueing), which is what
+the companion script does.  (The failure of test_retries_x2 for PROCESS workers seen on this machine on both
+trees is a different thing: the test expects results for all of 1..5, but some inputs are lost with the dying
+workers - `[1, 2, 3, 5] != [1, 2, 3, 4, 5]`.)
 """
 import os
 import signal
